@@ -26,6 +26,10 @@ CLAIMS = {
             "Decides a structural necessary condition on ALL paths of ALL allocation entry points: per successful path exactly one atom / one heap contribution / one pair, none on failing paths; restore field coverage; reporters. Not the arithmetic of sizes.",
             "Trusts rustc's MIR and the effect recogniser (Vec method names, ghost counter field names resolved by type); bulk append loop tied to the checked size by C13. Known finding: new_substr small-integer slice counted on the heap.",
             "DESIGN.md 4/C12"),
+    "C02": ("must-pass-through (dominance) of the budget test in the run loop, linear normalisation of the three budget comparisons, argument-shape rule on every check_cost call site (incl. closures through their captures), interprocedural budget-taint rule",
+            "Decides on ALL paths / ALL 53 early-check sites: the loop test dominates the successful return with no cost update in between; the comparisons are strict; apply_op receives budget - cost and budgets are forwarded unchanged; every early check compares the value that is charged with the unmodified budget; the budget influences nothing but CostExceeded. Not that an operator's charged cost equals checked cost plus non-negative terms arithmetically, nor the cost-exempt guard clause.",
+            "Trusts rustc's MIR and callee resolution; 'reaches the charged cost' is an additive-flow approximation (locals appearing in the cost slot of a successful return, closed under +).",
+            "DESIGN.md 4/C02"),
     "C04": ("path-sensitive effect counting of the value-preserving restore per verdict (T3), field-matched checkpoint tables, dominance/post-dominance pairing of checkpoint and RestoreAllocator pushes, verdict-switch region analysis in the run loop",
             "Decides the accounting and plumbing clauses on ALL paths: transparent restore count-neutral; Aborted/NoReplace/Replace each change exactly what they must (and compensate before re-creating); node classification uses same-kind counts; the interpreter pairs every checkpoint with one RestoreAllocator below the Apply, replaces the top iff Replace, charges 0; ENABLE_GC read only by gc_candidate. Not that no live node is invalidated (heap-shape invariant).",
             "Trusts rustc's MIR; the gc-candidate opcode list is deliberately not checked (the restore is value-safe for any operator).",
